@@ -220,6 +220,72 @@ func (c *Check) consumed(top, f *ssa.Function, ev ssa.Value, depth int) bool {
 	return false
 }
 
+// STMTFAIL: in the statement layer, once a statement (or the helper that runs it) failed with anything the function does
+// not explicitly recognise (errors.Is / errors.As / an IsError* classifier), the function does not answer success.
+func checkStmtFailures(c *Check) {
+	p := c.p
+	n := 0
+	for _, F := range p.ModFuncs {
+		if F.Parent() != nil || !inFile(p, F, "internal/mysql/node.go") {
+			continue
+		}
+		res := F.Signature.Results()
+		if res.Len() == 0 || !isErrorType(res.At(res.Len()-1).Type()) {
+			continue
+		}
+		errIdx := res.Len() - 1
+		fa := p.FA(F)
+		name := p.Name(F)
+		isSuccessRet := func(in ssa.Instruction) bool {
+			r, ok := in.(*ssa.Return)
+			if !ok || errIdx >= len(r.Results) {
+				return false
+			}
+			k, _ := c.valKind(fa, r, r.Results[errIdx])
+			return k == "const:nil" || k == "nil"
+		}
+		recognised := func(l Lit) bool {
+			if !l.Pos || l.T.Op != "call" {
+				return false
+			}
+			return p.IsCall(l.T, "errors.Is", "errors.As") || strings.Contains(l.T.Name, "IsError") || strings.HasPrefix(l.T.Name, "os.Is")
+		}
+		for _, b := range F.Blocks {
+			for si := range b.Succs {
+				for _, l := range fa.EdgeLits(b, si) {
+					if l.Pos || l.T.Op != "isnil" || l.T.Args[0].V == nil || !isErrorType(l.T.Args[0].V.Type()) {
+						continue
+					}
+					r := ResultOf(l.T.Args[0], -1)
+					if r == nil || r.In == nil {
+						continue
+					}
+					ci, ok := r.In.(ssa.CallInstruction)
+					if !ok {
+						continue
+					}
+					callee := p.CalleeNames(ci)[0]
+					n++
+					path, _ := fa.ReachFromEdge(b, si, isSuccessRet, ReachOpts{Cut: []LitPat{recognised}})
+					if path != nil {
+						if why, ok := stmtFailExceptions[name+":"+afterDot(callee)]; ok {
+							c.Hold(name, p.InstrPos(blockIf(b)), nthKey("stmtfail:exception", n), "listed exception: "+why)
+							continue
+						}
+					}
+					c.Req(path == nil, name, p.InstrPos(blockIf(b)), nthKey("stmtfail:"+afterDot(callee), n), "a failed statement is not answered with success unless the failure is one the function explicitly recognises (errors.Is / errors.As / IsError*): an unknown lag, status or flag is an error, not a default", "path to a nil return: "+fa.PathString(path))
+				}
+			}
+		}
+	}
+	c.Req(n >= 40, "internal/mysql/node.go", "-", "stmtfail:edges", "failure edges examined", fmt.Sprintf("%d", n))
+}
+
+var stmtFailExceptions = map[string]string{
+	"(*mysql.Node).ReenableEventsRetry:ReenableEvents":  "retry loop: a failed attempt is followed by the next one (event re-enabling after promotion; no property gate reads it)",
+	"(*mysql.Node).UpdateExternalCAFile:queryRowMogrify": "no external replication settings row = nothing to do (external CA file maintenance, outside the properties)",
+}
+
 func checkAdapterFailures(c *Check) {
 	p := c.p
 	n := 0
@@ -286,8 +352,9 @@ func init() {
 	sharedRules = append(sharedRules,
 		sharedRule{Suffix: "RETRY", Props: []string{"C03", "C15"}, Body: checkRetryHelpers,
 			Doc: "(RETRY) the retry helpers of the coordination client assign their error result exactly once, from the connection call"},
-		sharedRule{Suffix: "STMTERR", Props: []string{"C06", "C08", "C10", "C20"}, Body: func(c *Check) {
+		sharedRule{Suffix: "STMTERR", Props: []string{"C06", "C08", "C10", "C14", "C20"}, Body: func(c *Check) {
 			checkDroppedErrors(c, func(fn *ssa.Function) bool { return inFile(c.p, fn, "internal/mysql/node.go") }, 80, droppedExceptions)
+			checkStmtFailures(c)
 		}, Doc: "(STMTERR) in the statement layer the error of every fallible call is returned, tested or logged — never dropped or only traced (a statement that failed is reported as failed)"},
 		sharedRule{Suffix: "CLIENTERR", Props: []string{"C15"}, Body: func(c *Check) {
 			checkDroppedErrors(c, func(fn *ssa.Function) bool { return inFile(c.p, fn, "internal/dcs/zk.go") }, 30, droppedExceptions)
